@@ -36,8 +36,11 @@ META = dict(
          "opt_nomatch_binds_nothing, opt_named_nomatch_binds_nothing, opt_default_named; replaced_tokens_first_only "
          "documents a fact of the code (after a token-replacing parse action a list-valued name reports only the first "
          "token, results.py:203). PARTIAL: dump() is not modelled in Lean (checked on the real code against the same "
-         "lookups); names inside Combine, FollowedBy and Dict are not in the parse model - they are decided by the "
-         "real-code oracle with constructed expectations only; Each is outside the model.",
+         "lookups); hidden_keeps_names / followedby_keeps_names / combine_keeps_names / combine_named_nests / "
+         "hasKeys_is_haskeys: tokens deleted by FollowedBy and Combine (Tok.hid) keep their names - every lookup is what "
+         "it would be with the tokens still there, a named Combine with keys is one nested item. Names of Dict entries "
+         "are not in the parse model - decided by the real-code oracle with constructed expectations only; Each is "
+         "outside the model.",
     note="Trusted: Lean kernel; axioms propext/Classical.choice/Quot.sound; the parse model incl. its name annotations "
          "(Tok.nm, Act.name / Act.nameL, the Opt null marker, Located's three names; node attributes saveAsList / "
          "modalResults / resultsName extracted from the live objects) and the ParseResults value model PPModel/Mod/PR.lean "
@@ -57,6 +60,8 @@ THEOREMS = [
     "PP.Names.matchfirst_tokens_of_one_alternative", "PP.Names.or_tokens_of_one_alternative",
     "PP.Names.opt_nomatch_binds_nothing", "PP.Names.opt_named_nomatch_binds_nothing", "PP.Names.opt_default_named",
     "PP.Names.replaced_tokens_first_only", "PP.Names.resultOf_abs", "PP.Names.resultOf_inv",
+    "PP.Names.hidden_keeps_names", "PP.Names.followedby_keeps_names", "PP.Names.combine_keeps_names",
+    "PP.Names.combine_named_nests", "PP.Names.hasKeys_is_haskeys",
 ]
 
 FUEL = corr_parse.FUEL
@@ -156,13 +161,15 @@ def real_outcome(pp, root, s):
 # ---------------------------------------------------------------------------------------------------
 # generators
 # ---------------------------------------------------------------------------------------------------
-# Combine (keeps inner names on the joined token), FollowedBy (keeps names of the lookahead) and Dict are not in the parse
+# Combine (keeps inner names on the joined token) and FollowedBy (keeps names of the lookahead) are in the model (Tok.hid);
+# Dict is not in the parse
 # model's name annotations: kept out here, covered by the constructed-expectation oracle below
 COMP_KINDS = [("+", 8), ("|", 6), ("^", 4), ("And3", 2), ("MatchFirst3", 2), ("Or3", 2), ("Opt", 5), ("OptD", 3),
               ("ZeroOrMore", 4), ("OneOrMore", 4), ("ManyStop", 1), ("[]", 2), ("*", 1), ("~", 1), ("Group", 6),
-              ("Suppress", 3), ("SkipTo", 1), ("DelimitedList", 3), ("Located", 2), ("copy", 1), ("fwdref", 3)]
+              ("Suppress", 3), ("SkipTo", 1), ("DelimitedList", 3), ("Located", 2), ("copy", 1), ("fwdref", 3),
+              ("Combine", 4), ("FollowedBy", 2)]
 BASE = dict(ws_variants=0.0, ignore=0.0, set_name=0.0, errorstop=0.05, failing_actions=False, fatal_actions=False,
-            dl_combine=False, comp_kinds=COMP_KINDS)
+            comp_kinds=COMP_KINDS)
 RANDOM_CFG = dict(BASE, names=0.5, actions=0.15)
 NAME_POOL = ["x", "y", "z", "x*", "y*", "x", "item*", "y"]
 REPL_TAGS = [["const", "K"], ["drop"], ["rev"], ["dup"], ["app", "Z"], ["none"]]
@@ -213,8 +220,31 @@ class NameGen(gen.ProgGen):
         if len(leaves) < 2:
             return
         a, b = r.sample(leaves, 2)
-        k = r.randrange(9)
-        if k == 0:      # the same element under two names, and under the same name twice
+        k = r.randrange(12)
+        if k >= 9 and k != 11:   # names (also list-all) INSIDE a Combine that matches several times / same name outside
+            nm = r.choice(["x*", "x*", "x", "y*"])
+            na = self.named(a, name=nm)
+            nb = self.named(b, p=0.7, name=r.choice([nm, nm, "x", "y*"]))
+            inner = self.seq([na, nb])
+            if r.random() < 0.4:
+                inner = self.seq([inner, self.unary("ZeroOrMore", nb, nullable=True, shape=("many", nb, 0))])
+            c = self.unary("Combine", inner, {"join": r.choice(["", "", "-"]), "adjacent": True}, shape=("tight", [inner]))
+            c = self.named(c, p=0.3, name=r.choice(["c", "c*", nm]))
+            j = r.randrange(4)
+            if j == 0:
+                self.seq([c, c])
+            elif j == 1:
+                self.unary("OneOrMore", c, nullable=False, shape=("many", c, 1))
+            elif j == 2:
+                self.unary("DelimitedList", c, {"delim": ","}, shape=("dlist", c, ","))
+            else:
+                self.seq([c, self.named(b, name=nm)])
+        elif k == 11:            # FollowedBy keeps the names of its lookahead
+            nm = r.choice(["x*", "x", "y"])
+            fb = self.unary("FollowedBy", self.named(a, name=nm), nullable=True, shape=("look", a))
+            fb = self.named(fb, p=0.3, name=r.choice(["f", nm]))
+            self.seq([fb, self.named(a, p=0.7, name=r.choice([nm, "x*"])), b])
+        elif k == 0:      # the same element under two names, and under the same name twice
             self.seq([self.named(a, name="x"), self.named(a, name=r.choice(["x", "y", "x*"]))])
         elif k == 1:    # common prefix: the first alternative binds a name, then fails
             first = self.seq([self.named(a, name=r.choice(["x", "x*"])), b, b])
@@ -490,7 +520,7 @@ def constructed_case(rng):
     """-> dict(build=<spec>, input, expect) ; `build` is interpreted by build_constructed (kept json-able for replays).
     expect: nested dict name -> value, where a value is a str, a list (as_list of the value), or {"sub": {...}} for a
     sub-result whose own names are given."""
-    k = rng.randrange(14)
+    k = rng.randrange(18)
     a, b, c = _w(rng, "ab"), _w(rng, "cd"), _w(rng, "ef")
     n = rng.randint(1, 3)
     as_ = [_w(rng, "ab") for _ in range(n)]
@@ -544,6 +574,18 @@ def constructed_case(rng):
             cur["inner"] = {"sub": {"x": a}}
             cur = cur["inner"]["sub"]
         return dict(kind="forward", input=s.strip(), expect=exp)
+    if k >= 14:  # a list-all name on the parts of a Combine that matches several times / is also used outside
+        paths = [[_w(rng, "ab") for _ in range(rng.randint(1, 3))] for _ in range(rng.randint(2, 3))]
+        flat = [x for pth in paths for x in pth]
+        texts = [".".join(pth) for pth in paths]
+        form = ["seq", "delim", "rep", "outside"][k - 14]
+        if form == "seq":
+            return dict(kind="combstar", form=form, n=len(paths), input=" -> ".join(texts), expect={"seg": flat}, tokens=texts)
+        if form == "delim":
+            return dict(kind="combstar", form=form, input=" , ".join(texts), expect={"seg": flat}, tokens=texts)
+        if form == "rep":
+            return dict(kind="combstar", form=form, input="  ".join(texts), expect={"seg": flat}, tokens=texts)
+        return dict(kind="combstar", form=form, input=f"{texts[0]} : {b}", expect={"seg": paths[0] + [b]}, tokens=[texts[0], b])
     # copies of one element under different names
     return dict(kind="copies", input=f"{a} {b} {as_[0]}", expect={"first": a, "second": as_[0], "y": b})
 
@@ -582,6 +624,19 @@ def build_constructed(pp, case):
         return f
     if k == "copies":
         return A("first") + B("y") + A("second")
+    if k == "combstar":
+        path = pp.Combine(A("seg*") + ("." + A("seg*"))[...])
+        f = case["form"]
+        if f == "seq":
+            g = path
+            for _ in range(case["n"] - 1):
+                g = g + pp.Suppress("->") + path
+            return g
+        if f == "delim":
+            return pp.DelimitedList(path)
+        if f == "rep":
+            return pp.OneOrMore(path)
+        return path + pp.Suppress(":") + B("seg*")
     raise ValueError(k)
 
 
@@ -633,6 +688,9 @@ def constructed_job(case):
                 out.append((list(mode), [f"parse_string raised {type(ex).__name__}: {str(ex)[:80]}"]))
                 continue
             try:
+                if "tokens" in case and r.as_list() != case["tokens"]:
+                    out.append((list(mode), [f"constructed sentence parses to {r.as_list()!r}"]))
+                    continue
                 probs = check_expect(pp, r, case["expect"], case.get("absent", ()))
                 probs.extend(dump_problems(pp, r))
                 d = r.as_dict()
@@ -657,7 +715,7 @@ def twin_of(prog):
     """pick a results name used by exactly one `name` statement without actions on it; returns (name, listall, twin program,
     is_group) or None.  The twin wraps the named element in Located: Located(e)("n") reports e's match under `value`."""
     # Located pre-parses whitespace itself: transparent only when no token can match a blank
-    if any(st[1] == "CharsNotIn" or (st[1] in ("Literal", "Word", "Keyword", "CaselessLiteral") and " " in json.dumps(st[2:]))
+    if any(st[1] in ("CharsNotIn", "Combine", "SkipTo") or (st[1] == "DelimitedList" and len(st) > 3 and st[3].get("combine")) or (st[1] in ("Literal", "Word", "Keyword", "CaselessLiteral") and " " in json.dumps(st[2:]))
            for st in prog):
         return None
     names = [st for st in prog if st[1] == "name"]
@@ -783,7 +841,7 @@ def run(ctx):
                     "replacing actions on named elements, copies, named Forwards, backtracked alternatives, Opt defaults) x "
                     "inputs sampled from the grammar + mutations; compared: the full nested view (items, keys, r[k]=get=attr) "
                     "and as_dict(); non-trivial = successful parse with at least one name; modes: memoization off, packrat, "
-                    "left-recursion; constructed: 14 grammar families with a constructed expected name tree (incl. Combine, "
+                    "left-recursion; constructed: 18 grammar families with a constructed expected name tree (incl. Combine, "
                     "FollowedBy, Dict, Located) x random words; twin: e('n') vs Located(e)('n')")
     # registered finding (the model reproduces it - theorem replaced_tokens_first_only - so the correspondence is quiet):
     # after a parse action that returns a list, a list-valued name reports only the first token of the new list
@@ -834,8 +892,8 @@ def run(ctx):
                        theorem="C05 (Located twin)", how="harness.props.c05.replay")
     ctx.count_cases("oracle:located-twin", tn, outcomes={"compared": tn, "problems": len(tbad)},
                     distinct_keys=[json.dumps([j["prog"], s]) for j in tjobs[:200] for s in j["inputs"]])
-    ctx.assumptions.append("C05: names inside Combine / FollowedBy / Dict are outside the parse model (constructed-expectation "
-                           "oracle only); dump() is checked on the real code against the lookups, not modelled")
+    ctx.assumptions.append("C05: names of Dict entries are outside the parse model (constructed-expectation oracle only); "
+                           "dump() is checked on the real code against the lookups, not modelled")
 
 
 def replay(data):
